@@ -286,7 +286,32 @@ func checkPair(c pairCase) error {
 		}
 		cons = append(cons, rr)
 	}
-	all := append(append([]dns.RR{}, rrs...), cons...)
+	// ... values typed in with raw 8-bit octets in names (one fixed spelling, so equal text still
+	// means equal octets) and SvcParams in the order a program happened to append them: the verdicts
+	// are those of the octets
+	restore := wm.Spelling(wm.SpellRaw8)
+	var raw []dns.RR
+	for _, r := range recs {
+		rr, err := wm.ToLib(r)
+		if err != nil {
+			restore()
+			return nil
+		}
+		reverseParams(rr)
+		raw = append(raw, rr)
+	}
+	restore()
+	for i := range raw {
+		for j := range raw {
+			if got, want := dns.IsDuplicate(raw[i], raw[j]), keys[i] == keys[j]; got != want {
+				return pbt.Errf("hand-built records (raw 8-bit octets in names, SvcParams in reverse order): IsDuplicate=%v, reference says %v (%s):\n  %s\n  %s", got, want, c.How, raw[i], raw[j])
+			}
+		}
+		if !dns.IsDuplicate(raw[i], dns.Copy(raw[i])) {
+			return pbt.Errf("a hand-built %s record is not a duplicate of its own copy: %s", typeName(recs[i].Type), raw[i])
+		}
+	}
+	all := append(append(append([]dns.RR{}, rrs...), cons...), raw...)
 	for i := range all {
 		if !dns.IsDuplicate(all[i], all[i]) {
 			return pbt.Errf("IsDuplicate is not reflexive on %s", all[i])
@@ -305,6 +330,19 @@ func checkPair(c pairCase) error {
 	return nil
 }
 
+func reverseParams(rr dns.RR) {
+	var v []dns.SVCBKeyValue
+	switch x := rr.(type) {
+	case *dns.SVCB:
+		v = x.Value
+	case *dns.HTTPS:
+		v = x.Value
+	}
+	for i, j := 0, len(v)-1; i < j; i, j = i+1, j-1 {
+		v[i], v[j] = v[j], v[i]
+	}
+}
+
 func dupTypes() []uint16 {
 	var out []uint16
 	for _, t := range gen.AllTypes {
@@ -318,7 +356,26 @@ func dupTypes() []uint16 {
 func derive(t *rapid.T, a wm.Rec) (wm.Rec, string) {
 	b := cloneRec(a)
 	layout, _ := wm.LayoutOf(a.Type)
-	switch rapid.IntRange(0, 9).Draw(t, "how") {
+	switch rapid.IntRange(0, 10).Draw(t, "how") {
+	case 10:
+		// one octet of a name replaced by an octet that some case-folding table pairs with another
+		// one (Latin-1 letters, the punctuation next to the ASCII letters): A gets one, B its partner.
+		// Only ASCII letters fold (RFC 4343): the two are different names.
+		pairs := [][2]byte{{0xC9, 0xE9}, {0xC0, 0xE0}, {0xDE, 0xFE}, {0xD6, 0xF6}, {'@', '`'}, {'[', '{'}, {'^', '~'}, {0x1F, 0x3F}, {0x89, 0xA9}}
+		p := pairs[rapid.IntRange(0, len(pairs)-1).Draw(t, "pair")]
+		var slots []*[]byte
+		for i := range a.Name {
+			slots = append(slots, &a.Name[i])
+		}
+		if len(slots) == 0 {
+			return b, "identical"
+		}
+		li := rapid.IntRange(0, len(slots)-1).Draw(t, "nlabel")
+		pos := rapid.IntRange(0, len(a.Name[li])-1).Draw(t, "npos")
+		a.Name[li][pos] = p[0] // (a is the caller's copy: genPair passes a value it owns)
+		b = cloneRec(a)
+		b.Name[li][pos] = p[1]
+		return b, "near-case-octet"
 	case 9:
 		if !b.NoRdata && regroup(&b) {
 			return b, "regrouped"
